@@ -32,6 +32,15 @@ func Cfg(key, val string)
 func Param(name string, def int) int
 func Unix(sec int64, loc *time.Location) time.Time
 func Symbolic() bool
+// File is one member of a GTFS static archive given as a table.
+type File struct {
+	Name   string
+	Header []string
+	Rows   [][]string
+	BOM    bool
+}
+
+func Archive(files []File) []byte
 func Marshal(m *gtfsrt.FeedMessage) []byte
 func BadBytes() []byte
 func And(xs ...bool) bool
